@@ -1,13 +1,27 @@
 #!/bin/bash
-# usage: try_mutant.sh <patch.diff> <check id>...   (applies to /repo, runs checks, reverts)
+# usage: try_mutant.sh <patch.diff> <check id>...
+# Applies a seeded change to /repo, BUILDS the named checks into their own target directory
+# (/verif/target-mut) and reverts /repo straight afterwards — all under the exclusive tree lock, so
+# no other check compiles the changed tree — then runs the built checks (quick tier) with their
+# evidence and replays diverted to /verif/target-mut, so the committed evidence of /repo itself is
+# never touched by a trial.
 P=$1; shift
 cd /verif
-git -C /repo apply --check "$P" || { echo "PATCH DOES NOT APPLY"; exit 3; }
-git -C /repo apply "$P"
+export VERIF_TARGET=/verif/target-mut VERIF_EVIDENCE_DIR=/verif/target-mut/evidence VERIF_REPLAY_DIR=/verif/target-mut/replays
+mkdir -p /verif/target $VERIF_TARGET
+rm -rf $VERIF_REPLAY_DIR
+(
+  flock -x 9
+  git -C /repo apply --check "$P" || { echo "PATCH DOES NOT APPLY"; exit 3; }
+  git -C /repo apply "$P"
+  for id in "$@"; do
+    VERIF_HOLDS_TREE_LOCK=1 VERIF_BUILD_ONLY=1 ./check $id 9>&- || echo "[$id] BUILD FAILED"
+  done
+  git -C /repo checkout -- . ; git -C /repo status --short | head -3
+) 9>/verif/target/tree.lock || exit $?
 for id in "$@"; do
-  out=$(./check $id 2>&1); rc=$?
+  out=$(VERIF_NO_BUILD=1 ./check $id ${TIER:+--tier $TIER} 2>&1); rc=$?
   echo "[$id] rc=$rc $(echo "$out" | grep -E "^violation" | head -3 | cut -c1-220)"
-  echo "$out" | grep -E "^$id tier" 
+  echo "$out" | grep -E "^$id tier"
 done
-git -C /repo checkout -- . ; git -C /repo status --short | head -3
-rm -rf /verif/replays/C*
+rm -rf $VERIF_REPLAY_DIR
